@@ -172,6 +172,7 @@ class TreeExec:
         self.closed_bytes: list = []  # bytes after every close along the way
         self.events: list = []  # for property-specific oracles
         self.hold = self.cfg["policy"] == "hold"
+        self.unexpected: list = []  # library refusals of operations the model considers valid
 
     # -- resolution -----------------------------------------------------------
     def wsof(self, handle):
@@ -214,6 +215,8 @@ class TreeExec:
         except Refused as err:
             self.model = pre
             res = f"refused:{err}"
+            if not str(err).startswith("expected:"):
+                self.unexpected.append((len(self.results), list(op), str(err)))
         self.results.append(res)
         return res
 
@@ -335,7 +338,7 @@ class TreeExec:
         # the setter *updates* an existing dictionary: assign the increment only
         inc = {f"k{new[1]}": {"a": new[1], "o": new[0]}}
         if nd.msrc[0] != nd.idx and nd.msrc[1] > 0:
-            raise Refused("metadata-of-copy")  # keeps the model simple
+            raise Refused("expected:metadata-of-copy")  # keeps the model simple
         self._lib(lambda: setattr(x, "metadata", inc))
         nd.msrc = new
 
@@ -406,16 +409,19 @@ class TreeExec:
             try:
                 x.workspace.remove_entity(x)
             except Exception as err:  # pylint: disable=broad-except
-                raise Refused(type(err).__name__) from err
-            self.events.append(("deleted-despite-allow_delete-off", e))
+                self.events.append(("refused-delete", e, len(self.results)))
+                raise Refused("expected:allow_delete-off:" + type(err).__name__) from err
+            self.events.append(("deleted-despite-allow_delete-off", e, len(self.results)))
+            self.events.append(("removed", "ws", [e] + self.model.descendants(e), len(self.results)))
             self.model.remove(e, "ws")
             return "ok:permission-ignored"
         del_kids = [c for c in self.model.descendants(e)]
         if any(not self.model.nodes[c].flags["allow_delete"] for c in del_kids):
             # a protected descendant: the statement leaves the outcome open; not explored
-            raise Refused("protected-descendant")
+            raise Refused("expected:protected-descendant")
         self._lib(lambda: x.workspace.remove_entity(x))
         del x
+        self.events.append(("removed", "ws", [e] + self.model.descendants(e), len(self.results)))
         self.model.remove(e, "ws")
 
     def op_rm_par(self, e):
@@ -424,6 +430,7 @@ class TreeExec:
         par = self.ent(nd.parent)
         self._lib(lambda: par.remove_children([x]))
         del x
+        self.events.append(("removed", "parent", [e] + self.model.descendants(e), len(self.results)))
         self.model.remove(e, "parent")
 
     def op_gc(self):
@@ -451,6 +458,14 @@ class TreeExec:
         for op in ops:
             self.apply(op)
         return self
+
+    def image(self, wsn=1):
+        """Bytes of the (still open) in-memory file after a flush: a valid file image."""
+        ws = self.ws if wsn == 1 else self.ws2
+        if ws is None:
+            return None
+        ws.geoh5.flush()
+        return ws.h5file.getvalue()
 
     def finish(self, want=("live", "reopen")):
         """Final observation protocol: [live snapshot], close, [re-open read-only], bytes."""
@@ -549,6 +564,20 @@ SCENES = {
     ],
     "S2r": None,  # S2 followed by a re-open: exploration starts from a loaded tree
 }
+SCENES["S4"] = [
+    ["mk_group", "root"],
+    ["mk_obj", "Points", 0],
+    ["add_data", 1, "fv"],
+    ["add_data", 1, "fv"],
+    ["add_data", 1, "fv"],
+    ["pg_add", 1, 2, "Q"],
+    ["pg_add", 1, 2, "P"],
+    ["pg_add", 1, 3, "P"],
+    ["mk_group", 0],
+    ["mk_obj", "Points", 5],
+    ["add_data", 6, "fv"],
+]
+SCENES["S4r"] = SCENES["S4"] + [["reopen"]]
 SCENES["S2r"] = SCENES["S2"] + [["reopen"]]
 SCENES["S1r"] = SCENES["S1"] + [["reopen"]]
 
@@ -618,6 +647,8 @@ def enabled(model: Model, alpha: dict) -> list:
             tgts = ["same"] + [p for p in containers if p != e.parent and not (e.kind == "group" and p != "root" and model.is_ancestor(e.idx, p))]
             if alpha.get("ws2"):
                 tgts.append("root2")
+            if alpha.get("copy_targets"):
+                tgts = [t for t in tgts if t in alpha["copy_targets"]]
             for t in tgts:
                 for cc in (True, False) if e.children else (True,):
                     ops.append(["copy", e.idx, t, cc])
